@@ -157,14 +157,16 @@ Example fixed_D14 :
              d_expr (r_det r') = EMatch (MOf 2) body /\ matches o0 r' d = Ok false.
 Proof. exact C01.fixed_D14. Qed.
 Check fixed_D14.
+(* (since fix D15/D20 an identifier body that is not inlined keeps its top-level group, so the
+   witness needs the coalesce switch: the and-group is merged as part of the condition) *)
 Example refuted_D16 :
   let body := EGroup BAnd [ENested [120%N] (EBexp (EField [97%N]) BEqual (EInt 1));
                            ENested [121%N] (EBexp (EField [98%N]) BEqual (EInt 2))] in
   let r := mk_rule (ENegate (EIdent [65%N])) [([65%N], body)] in
   let d : doc := fun k => if str_eqb k [120%N] then Some (VObj [([97%N], VInt 5)]) else None in
   matches o0 r d = Ok true /\
-  (exists r', optimise o0 (fun k => k) sw_only_shake r = Ok r' /\ matches o0 r' d = Ok true) /\
-  (exists r', optimise o0 (@rev key) sw_only_shake r = Ok r' /\ matches o0 r' d = Ok false).
+  (exists r', optimise o0 (fun k => k) sw_coalesce_shake r = Ok r' /\ matches o0 r' d = Ok true) /\
+  (exists r', optimise o0 (@rev key) sw_coalesce_shake r = Ok r' /\ matches o0 r' d = Ok false).
 Proof. exact C01.refuted_D16. Qed.
 Check refuted_D16.
 
